@@ -28,7 +28,24 @@ import (
 // processed" is visible as "reached the fake Honeycomb".
 
 func init() {
-	Register(&Check{ID: "C23", World: "B/cluster", Gen: genResp, Run: runResp, Real: bReal, Stub: bStub,
+	Register(&Check{ID: "C23", World: "B/cluster",
+		// a tenth of the runs are stress-relief plans: a span answered with success
+		// while relief starts on its node must not vanish
+		Gen: func(r *Rng, tier string, p *Plan) {
+			if r.Bool(0.1) {
+				p.N["stressb"] = 1
+				genStressB(r, tier, p)
+				return
+			}
+			genResp(r, tier, p)
+		},
+		Run: func(t *testing.T, p *Plan) *Outcome {
+			if p.On("stressb") {
+				return runStressB(t, p)
+			}
+			return runResp(t, p)
+		},
+		Real: bReal, Stub: bStub,
 		OwnProbes: []string{"env_lookup_failed", "env_lookup_timeout", "body_read_error", "malformed_body", "queue_full_429", "otlp_traces", "otlp_logs", "invalid_event_in_batch", "whole_request_error_checked", "compressed_body", "undecodable_compressed_body", "request_overlaps_slow_lookup"}})
 }
 
